@@ -271,22 +271,26 @@ def run(tier, out, replay=None):
             return
         # 1. exhaustive model checking of the specification
         thorough = tier == "thorough"
-        mc = {"Vals": "{1, 2}", "MaxLen": 2, "MaxId": 3, "Fixed": "TRUE"}
+        mcs = [{"Vals": "{1, 2}", "MaxLen": 2, "MaxId": 3, "Fixed": "TRUE"}]
         if thorough:
-            mc = {"Vals": "{1, 2, 3}", "MaxLen": 3, "MaxId": 4, "Fixed": "TRUE"}
+            # measured: 38 172 states / 9 s, 59 885 / 11 s, 1 245 846 / 3 min 45 s  ({1,2,3} with MaxLen 3 and 4 results exceeds 10^7 states)
+            mcs = [{"Vals": "{1, 2, 3}", "MaxLen": 2, "MaxId": 3, "Fixed": "TRUE"}, {"Vals": "{1, 2}", "MaxLen": 2, "MaxId": 4, "Fixed": "TRUE"},
+                   {"Vals": "{1, 2}", "MaxLen": 3, "MaxId": 3, "Fixed": "TRUE"}]
         cfg = os.path.join(wd, "mc.cfg")
-        write_cfg(cfg, "Spec", mc, MC_INVS, MC_PROPS, view="View")
-        r = run_tlc("AnnealResults", cfg, timeout=3000, coverage=thorough, name="ar_mc")
-        out.set("spec_states", r.distinct)
-        out.set("spec_transitions", r.generated)
-        out.set("spec_constants", mc)
-        out.add("states", r.distinct)
-        out.add("transitions", r.generated)
-        if not r.ok:
-            out.violation("spec:" + ",".join(r.violated), "spec-level " + ",".join(r.violated), r.stdout[-3000:])
-        if thorough and r.coverage:
-            zero = [a for a, (d, g) in r.coverage.items() if g == 0 and a.startswith("Do")]
-            out.set("actions_never_taken", zero)
+        mc = mcs[0]
+        out.set("spec_constants", mcs)
+        for qi, mcq in enumerate(mcs):
+            write_cfg(cfg, "Spec", mcq, MC_INVS, MC_PROPS, view="View")
+            r = run_tlc("AnnealResults", cfg, timeout=3000, coverage=(thorough and qi == 0), name="ar_mc")
+            out.add("spec_states", r.distinct)
+            out.add("spec_transitions", r.generated)
+            out.add("states", r.distinct)
+            out.add("transitions", r.generated)
+            if not r.ok:
+                out.violation("spec:" + ",".join(r.violated), "spec-level " + ",".join(r.violated), r.stdout[-3000:])
+            if thorough and r.coverage:
+                zero = [a for a, (d, g) in r.coverage.items() if g == 0 and a.startswith("Do")]
+                out.set("actions_never_taken", zero)
         # 1b. negative configuration: the pinned (unrepaired) behaviour must be rejected by the same invariants
         neg = dict(mc, Fixed="FALSE", MaxId=3, MaxLen=2, Vals="{1, 2}")
         write_cfg(cfg, "Spec", neg, MC_INVS, (), view="View")
